@@ -156,8 +156,11 @@ PLANS = {
                     MC("MCWriter", "MCWriter_L255.cfg", workers=2),
                     MC("MCWriter", "MCWriter_L255_asfound.cfg", workers=2, expect="fail:SortedNeverPanics")],
                 gen=[G("roundtrip", 600, 20000, "TraceCursor", "TraceCursor.cfg"),
-                     G("roundtrip", 200, 5000, "TraceCursor", "TraceCursor.cfg", release=True)]),
+                     G("roundtrip", 200, 5000, "TraceCursor", "TraceCursor.cfg", release=True),
+                     # through a sink that accepts partial writes (the offsets the writer records must still be right)
+                     G("roundtrip", 100, 2000, "TraceCursor", "TraceCursor.cfg", extra=["--wsched", "rand5"])]),
     "C02": dict(level="model_checking", assumptions=TRUST,
+                mc=[MC("MCBlock", "MCBlock.cfg", workers=8), MC("MCBytes", "MCBytes.cfg", workers=8)],
                 gen=[G("seeks", 64, 2000, "TraceCursor", "TraceCursor.cfg")]),
     "C04": dict(level="model_checking", assumptions=TRUST,
                 gen=[G("ranges", 96, 3000, "TraceIter", "TraceIter.cfg")]),
@@ -216,7 +219,9 @@ PLANS = {
                 gen=[G("faults", 48, 1200, "TraceFaults", "TraceFaults.cfg")]),
     "C13": dict(level="fault_enumeration", assumptions=TRUST,
                 mc=[MC("MCTrailer", "MCTrailer.cfg", workers=2)],
-                gen=[G("open", 18, 600, "TraceOpen", "TraceOpen.cfg")]),
+                gen=[G("open", 18, 600, "TraceOpen", "TraceOpen.cfg"),
+                     # what the sink holds at any time is a prefix of the finished file, trailer last
+                     G("wprefix", 200, 6000, "TraceIO", "TraceIO.cfg")]),
     "C14": dict(level="model_checking", assumptions=TRUST + ["hook H3 re-exports the private codec functions", "the 2^32 sweep evaluates the C14 predicate in the harness; TLC checks that all 256 chunks report zero failures, and re-evaluates the predicate itself on the boundary windows"],
                 mc=[MC("MCVarint", "MCVarint.cfg", workers=4)],
                 gen=[G("varint_sweep", 1, 1, "TraceVarint", "TraceVarint_C14.cfg", heavy=False),
